@@ -463,6 +463,8 @@ class Engine:
             return z3.BoolVal(False)
         if v.ty.k == 'str':
             return v.t != str_code('')
+        if v.ty.k == 'list' and getattr(self, '_cur_heap', None) is not None:
+            return self._cur_heap.len(v.t) != 0
         if v.ty.k in ('ref',):
             return z3.BoolVal(True)
         if v.ty.k == 'tuple':
@@ -494,6 +496,7 @@ class Engine:
 
     # ---------------------------------------------------------------- expressions
     def ev(self, e, st):
+        self._cur_heap = st.heap          # (truthiness of a list needs its current length)
         m = getattr(self, 'ev_' + type(e).__name__, None)
         if m is None:
             raise OutOfSubset('expression %s at line %d' % (type(e).__name__, e.lineno))
@@ -701,6 +704,11 @@ class Engine:
                 r = st.heap.has(b.t, self.to_key(st, a))
             elif b.ty.k == 'set' and all(i.ty.k == 'str' for i in b.items) and a.ty.k == 'str':
                 r = z3.Or(*[a.t == i.t for i in b.items])
+            elif b.ty.k == 'list' and b.ty.a[0].k in ('ref', 'htuple', 'any') and (
+                    a.ty.k == 'htuple' or (a.ty.k == 'ref' and a.ty.a[0] in ('Constraint', 'PSDMatrix', 'Point', 'Function', 'BlockPartition'))):
+                # membership in a list of objects that define no __eq__ of their own returning a bool: identity (Constraint / PSDMatrix / tuples of them)
+                kq = fresh('kq', I)
+                r = z3.Exists([kq], z3.And(kq >= 0, kq < st.heap.len(b.t), st.heap.elt(b.t, kq) == a.t))
             else:
                 raise OutOfSubset('membership in %r' % (b.ty,))
             return vbool(r if isinstance(op, ast.In) else z3.Not(r))
@@ -1427,7 +1435,10 @@ class Engine:
     def assign_to(self, target, v, st, line):
         if isinstance(target, ast.Name):
             self.note_local(target.id)
-            hint = getattr(self.c, 'local_types', {}).get(target.id)
+            lt = getattr(self.c, 'local_types', {})
+            hint = lt.get(target.id)
+            if hint is None and target.id in self.local_order:
+                hint = lt.get(self.local_order.index(target.id))          # by ordinal of first assignment (stable under renaming of locals)
             if isinstance(hint, T):
                 if v.ty.k == 'list' and v.ty.a[0].k == 'any' and hint.k == 'list':
                     v = V(hint, v.t)                  # element type of a local list declared by the side-car
